@@ -74,6 +74,9 @@ EXCLUDED = {
 }
 
 
+SWEEP_CONFIGS = ["plain", "empty-meet", "y-empty", "x-empty", "empty-meet"]
+
+
 class Gen:
     def __init__(self, seed, maxdim=3, big=0.06):
         self.r = random.Random(seed)
@@ -264,6 +267,10 @@ class Gen:
                 # paired binary query
                 q = r.choice(QRY_COMMON + d["qry"] * 2)
                 y = pick_arg(x)
+                if y != x and dom != "Grid" and dims[x] == dims[y] and dims[x] > 0 and r.random() < 0.15:
+                    zeros = " ".join(["0"] * (dims[x] - 1))
+                    lines.append(("op %d refine_with_constraint >= -5 1 %s" % (x, zeros)).strip())
+                    lines.append(("op %d refine_with_constraint >= -5 -1 %s" % (y, zeros)).strip())
                 drop_twins()
                 if dom == "PS" and q in ("contains", "is_disjoint_from", "geometrically_covers", "geometrically_equals", "definitely_entails"):
                     lines += ["copy 10 %d" % x, "copy 11 %d" % y, "rebuild 20 %d" % x, "rebuild 21 %d" % y,
@@ -283,6 +290,13 @@ class Gen:
                     if not cand: op = "intersection_assign"
                     else:
                         y = x if (x in cand and r.random() < alias_p) else r.choice(cand)
+                if pre is None and y != x and dom != "Grid" and dims[x] == dims[y] and dims[x] > 0 and op != "concatenate_assign" and r.random() < 0.22:
+                    # EMPTY MEET: push receiver and argument apart (x into v0 >= 5, y into v0 <= -5; strict for NNC half of the time)
+                    zeros = " ".join(["0"] * (dims[x] - 1))
+                    k1 = ">" if (dom == "NNC" and r.random() < 0.5) else ">="
+                    k2 = ">" if (dom == "NNC" and r.random() < 0.5) else ">="
+                    lines.append(("op %d refine_with_constraint %s -5 1 %s" % (x, k1, zeros)).strip())
+                    lines.append(("op %d refine_with_constraint %s -5 -1 %s" % (y, k2, zeros)).strip())
                 if pre == "sub" and y != x: lines.append("op %d upper_bound_assign %d" % (x, y))
                 if pre == "sup" and y != x: lines.append("op %d intersection_assign %d" % (x, y))
                 extra, textra = "", ""
@@ -326,6 +340,49 @@ class Gen:
                     lines.append("op %d %s" % (x, r.choice(["pairwise_reduce", "collapse", "omega_reduce"])))
         drop_twins()
         return lines
+
+    # ---- const-argument sweep: EVERY binary operation and query of the domain, receiver a fresh copy of object 0,
+    #      argument object 1, in one emptiness configuration; the argument is checked directly (argck) and by value ----
+    def sweep_history(self, cid, dom, config):
+        r = self.r
+        d = DOMS[dom]
+        n = r.randint(1, 2)
+        lines = ["case %s %s" % (cid, dom)]
+        lines.append("new 0 %d empty" % n if config == "x-empty" else self.new_nonempty(0, dom, n))
+        lines.append("new 1 %d empty" % n if config == "y-empty" else self.new_nonempty(1, dom, n))
+        if config == "empty-meet" and dom != "Grid":
+            zeros = " ".join(["0"] * (n - 1))
+            k1 = ">" if (dom == "NNC" and r.random() < 0.5) else ">="
+            lines.append(("op 0 refine_with_constraint %s -5 1 %s" % (k1, zeros)).strip())
+            lines.append(("op 1 refine_with_constraint >= -5 -1 %s" % zeros).strip())
+        if config == "empty-meet" and dom == "Grid":
+            zeros = " ".join(["0"] * (n - 1))
+            lines.append(("op 0 add_congruence 2 0 1 %s" % zeros).strip())     # v0 = 0 mod 2
+            lines.append(("op 1 add_congruence 2 1 1 %s" % zeros).strip())     # v0 = 1 mod 2
+        if r.random() < 0.5: lines.append("obs 1 %s" % r.choice(OBS_COMMON + d["obs"]))
+        ops = BIN_COMMON + sorted(d["bin"].keys())
+        r.shuffle(ops)
+        for op in ops:
+            if op == "add_grid_generators_of": continue
+            pre = d["bin"].get(op)
+            extra = ""
+            if op.endswith("_tp"): extra = " 1"
+            if op == "BGP99_extrapolation_assign": extra = " 2"
+            if op.endswith("_extrapolation_assign_of"): extra += " %d" % r.choice([0, 1])
+            lines.append("copy 10 0")
+            if pre == "sub": lines.append("op 10 upper_bound_assign 1")
+            if pre == "sup": lines.append("op 10 intersection_assign 1")
+            lines.append("op 10 %s 1%s" % (op, extra))
+            lines.append("del 10")
+        for q in QRY_COMMON + d["qry"]:
+            lines.append("qry 0 %s 1" % q)
+        return lines
+
+    def new_nonempty(self, oid, dom, n):
+        for _ in range(20):
+            l = self.new(oid, dom, n)
+            if not l.endswith(" empty"): return l
+        return l
 
     # ---- syntactic objects ----
     def le_history(self, cid, steps=16, alias_p=0.5):
@@ -428,7 +485,9 @@ def make_cases(seed, plan, maxdim=3, start=0):
     for dom, count, steps in plan:
         for _ in range(count):
             cid = "%s%d" % (dom.lower(), k); k += 1
-            if dom == "LE": out += g.le_history(cid, steps)
+            if dom.startswith("sweep:"):
+                out += g.sweep_history("sw" + cid.split(":")[-1], dom.split(":")[1], SWEEP_CONFIGS[(k - 1) % len(SWEEP_CONFIGS)])
+            elif dom == "LE": out += g.le_history(cid, steps)
             elif dom in ("CS", "GS"): out += g.sys_history(cid, dom, steps)
             else: out += g.history(cid, dom, steps)
     return out
